@@ -390,14 +390,14 @@ impl MinidumpWriter {
         };
         dir_section.write_to_file(buffer, Some(dirent))?;
 
-        let dirent = match dso_debug::write_dso_debug_stream(buffer, self.process_id, &dumper.auxv)
-        {
-            Ok(dirent) => dirent,
-            Err(e) => {
-                soft_errors.push(WriterError::WriteDSODebugStreamFailed(e));
-                Default::default()
-            }
-        };
+        let dirent =
+            match dso_debug::write_dso_debug_stream(buffer, self.blamed_thread, &dumper.auxv) {
+                Ok(dirent) => dirent,
+                Err(e) => {
+                    soft_errors.push(WriterError::WriteDSODebugStreamFailed(e));
+                    Default::default()
+                }
+            };
         dir_section.write_to_file(buffer, Some(dirent))?;
 
         let dirent = match self.write_file(buffer, &format!("/proc/{}/limits", self.blamed_thread))
